@@ -217,6 +217,12 @@ package paillier
 //@   modifies nothing
 //@   allocates
 //@   ensures result2 == nil ==> (result0 != nil && result1 != nil && ct != nil)
+// (C12) the recovered nonce, as computed: ( c * (N+1)^(-m) mod N ) ^ (N^-1 mod phi) mod N with m the decrypted plaintext.
+// That this is the original nonce modulo N, and that a nonce is determined modulo N (re-encrypting m with it gives the
+// same ciphertext) is lemma c12_randomness (lemmas/lean).
+//@   let NM = natval(sk.PublicKey.n.Modulus)
+//@   ensures[C12] result2 == nil ==> natval(result1) == modexp((modexp(natval(sk.PublicKey.nPlusOne), 0 - natval(result0), NM) * natval(ct.c)) % NM, modinv(natval(sk.PublicKey.nNat), natval(sk.phi)), NM)
+//@   ensures[C12] result2 == nil ==> natval(result0) == symmod((((modexp(natval(ct.c), natval(sk.phi), natval(sk.PublicKey.nSquared.Modulus)) - 1) / NM) * natval(sk.phiInv)) % NM, NM)
 //@   ensures (result2 == nil) == ctvalid(sk.PublicKey, ct)
 
 // Restoring a secret key from its primes (Config.UnmarshalBinary, after both primes passed ValidatePrime): a complete key.
